@@ -570,6 +570,21 @@ func (env *Env) evalCall(n *ECall) TV {
 		}
 		_, _, _, id := e.boxFns(t)
 		return TV{T: Eq(DynType(x.T), IntLit(int64(id)))}
+	case "implements":
+		// implements(x, "pkg.Iface"): the interface value x is non-nil and its dynamic type implements the interface
+		x := arg(0)
+		s, ok := n.Args[1].(*EStr)
+		if !ok {
+			evalFail("implements: second argument must be a type string")
+		}
+		it, err := e.p.LookupType(s.V)
+		if err != nil {
+			evalFail("implements: %v", err)
+		}
+		if !types.IsInterface(it) {
+			evalFail("implements: %s is not an interface type", s.V)
+		}
+		return TV{T: And(Ne(x.T, IntLit(0)), e.implements(DynType(x.T), it)), Typ: types.Typ[types.Bool]}
 	case "unbox":
 		x := arg(0)
 		s, ok := n.Args[1].(*EStr)
@@ -638,6 +653,36 @@ func (env *Env) evalCall(n *ECall) TV {
 			return TV{T: t, Typ: types.Typ[types.Int]}
 		}
 		return TV{T: IntLit(0), Typ: types.Typ[types.Int]}
+	case "atiter":
+		// atiter(k, expr): expr in the state at the head of the current iteration of loop k (for clauses
+		// inside that loop's body: invariants of inner loops, call-site clauses)
+		lit, ok := n.Args[0].(*EInt)
+		if !ok {
+			evalFail("atiter: loop index expected")
+		}
+		if env.opaqueLast != nil {
+			evalFail("atiter: not meaningful in a callee's clause seen from a caller")
+		}
+		for _, li := range e.loopList {
+			if itoa(li.index) == lit.V {
+				if li.headerState == nil {
+					evalFail("atiter: loop %s has not been entered at this point", lit.V)
+				}
+				return env.inState(li.headerState).eval(n.Args[1])
+			}
+		}
+		evalFail("atiter: no loop %s", lit.V)
+	case "entered":
+		// entered(k): the head of loop k has been reached by this activation on this path
+		lit, ok := n.Args[0].(*EInt)
+		if !ok {
+			evalFail("entered: loop index expected")
+		}
+		k := "ent|" + lit.V
+		if t, ok := env.state.heap[k]; ok {
+			return TV{T: t, Typ: types.Typ[types.Bool]}
+		}
+		return TV{T: False, Typ: types.Typ[types.Bool]}
 	case "lastresult":
 		// lastresult("callee"): first result of the latest call to callee on this path
 		sx, ok := n.Args[0].(*EStr)
@@ -684,6 +729,21 @@ func (env *Env) evalCall(n *ECall) TV {
 		return TV{T: SliceOff(arg(0).T)}
 	case "birth":
 		return TV{T: Birth(arg(0).T)}
+	case "boundrecv":
+		// boundrecv(f, "(*T).m"): the receiver captured by the bound method value f (meaningful when fnis(f, "(*T).m"))
+		x := arg(0)
+		s, ok := n.Args[1].(*EStr)
+		if !ok {
+			evalFail("boundrecv: method name expected")
+		}
+		fn := e.p.Funcs[s.V]
+		if fn == nil || fn.Signature.Recv() == nil {
+			evalFail("boundrecv: unknown method %s", s.V)
+		}
+		srt := e.sortOf(fn.Params[0].Type())
+		capFn := boundCapFn(e.p, fn, 0)
+		e.declareFun(capFn, []Sort{SInt}, srt)
+		return TV{T: App(srt, capFn, x.T), Typ: fn.Params[0].Type()}
 	case "fnis":
 		// fnis(f, "name"): function value f is the named package function
 		x := arg(0)
